@@ -31,6 +31,9 @@ class _Relabel:
 
 
 def run(rep, prog, tier):
+    from .hidden import no_hidden_state
+    rep.rule('R03.state', 'no hidden state in the anchored modules: no function writes a module-level object, no caching decorator / cached property')
+    no_hidden_state(rep, 'R03.state', prog, ['Network/NodalAnalysis/label_mapping.py', 'Network/NodalAnalysis/node_analysis.py', 'Network/NodalAnalysis/state_space_model.py', 'Network/NodalAnalysis/bias_point_analysis.py', 'Circuit/solution.py', 'Circuit/state_space_model.py'])
     rep.rule('R03.space', 'every matrix axis of the steady-state, state-space, transient and port-impedance code is addressed only through the map that laid it out: an index, slice, product or stack never joins two different label spaces (must hold for every label set, not for one naming scheme)')
     rep.rule('R03.layout', 'the linear systems are laid out (non-reference nodes, then ideal voltage sources) x the same; states = c_values then l_values; inputs = current sources then non-inductor voltage sources')
     rep.rule('R03.antisym', 'every incidence site treats node1 / node2 antisymmetrically, so reversing an element flips exactly its own voltage and current')
@@ -50,7 +53,7 @@ def run(rep, prog, tier):
         tmp_signs += interps[e].signs
     table = {}
     f = prog.funcs.get(f'{SR.NA}::voltage_source_incidence_matrix')
-    for term, sg in (c01._return_signs(f.node) if f else []): table[('B', term)] = sg
+    for term, sg in (c01._return_signs(f.node, prog) if f else []): table[('B', term)] = sg
     for s in tmp_signs:
         if s['fn'].endswith('source_incidence_matrix') and 'inductance' not in s['fn'] and s['terminal']: table[('Q', s['terminal'])] = s['sign']
         if s['fn'].endswith('element_incidence_matrix') and s['terminal']: table[('Delta', s['terminal'])] = s['sign']
